@@ -225,6 +225,12 @@ func (c *Collector) Finish(outDir string, tier string, seed int, wall float64, e
 	for k, v := range extra {
 		cov[k] = v
 	}
+	if assumptions == nil {
+		assumptions = append([]string{}, trusted...)
+	}
+	if c.Notes == nil {
+		cov["notes"] = []string{}
+	}
 	ev := Evidence{PropertyID: c.Property, Tier: tier, Seed: seed, Level: "other", Coverage: cov,
 		Assumptions: assumptions, WallS: wall, Violations: len(bad)}
 	data, _ := json.MarshalIndent(ev, "", " ")
